@@ -217,6 +217,10 @@ func (fx *FnExec) heapWF(name, srt, arr, bound string) Term {
 		return "(forall ((q.w Int)) (! " + bnd(k, "(select "+arr+" q.w)") + " :pattern ((select " + arr + " q.w))))"
 	case strings.HasPrefix(name, "Mem."):
 		es := arrayElemSort(arrayElemSort(srt))
+		if es == "E.byte" {
+			// a byte array holds bytes
+			return "(forall ((q.w Int) (q.x Int)) (! (and (<= 0 (select (select " + arr + " q.w) q.x)) (<= (select (select " + arr + " q.w) q.x) 255)) :pattern ((select (select " + arr + " q.w) q.x))))"
+		}
 		k := kindOfSort(es)
 		if k == "" {
 			return ""
